@@ -53,11 +53,13 @@ MANIFEST = {
             "trees edited through the API and validated again): verdict, error class and app-tag must be equal, rfc_valid "
             "must agree with the verdict, its violated rules with an independent Python reading of the RFC. Oracle validmut: "
             "valid instance + one mutation per rule class (also must / when / leafref / instance-identifier) through XML, "
-            "JSON, shuffled siblings, parse+validate, parse-only + validate, lyd_new_path + validate: every route gives the "
-            "verdict and class expected by construction.",
+            "JSON, shuffled siblings, parse+validate, parse-only + validate, lyd_new_path + validate, lyd_free_tree on the "
+            "validated valid instance + validate (deleting mutations): every route gives the verdict and class expected by "
+            "construction; plus duplicates next to leaf-list values whose node hashes collide (children_ht path of "
+            "lyd_validate_duplicates).",
     "note": "PARTIAL. In Coq: the XPath-free fragment only; when / must / leafref / instance-identifier require-instance, "
-            "config/state and input/output placement and if-feature are covered by the oracle (by construction), not by the "
-            "models. Fresh trees only (non-fresh trees: the refuted theorem); trees with explicit empty non-presence containers "
+            "config/state placement (LYD_PARSE_NO_STATE / LYD_VALIDATE_NO_STATE) and a node disabled by if-feature are covered by "
+            "the oracle (by construction), not by the models; input/output placement (RPC / action trees) is not covered. Fresh trees only (non-fresh trees: the refuted theorem); trees with explicit empty non-presence containers "
             "are outside the theorem (covered by the correspondence run). The validation diff, LYD_VALIDATE_NO_STATE / "
             "OPERATIONAL / MULTI_ERROR, RPC / notification validation, extension data (schema-mount, structure), several "
             "modules are not modelled. The implicit default nodes are not materialised (WithDefaults slice): schemas where a "
